@@ -116,6 +116,17 @@ def table_from_initialiser(b):
         if sd is None or sd[0] != 'stmt':
             return None
         r = sd[3]['r']
+        if r['k'] == 'bin' and r['op'] in ('Add', 'AddUnchecked'):
+            x = r['a'].get('c') or r['a'].get('m')
+            k = r['b'].get('k', {}).get('v')
+            if x is not None and 'pj' not in x and isinstance(k, int):
+                c = zip_component(b, x['l'], zip_next)
+                if c is not None:
+                    return (c, k)
+                inner = const_add(x['l'])
+                if inner:
+                    return (inner[0], inner[1] + k)
+            return None
         if r['k'] in ('use', 'cast'):
             q = r['o'].get('c') or r['o'].get('m')
             if q is None:
@@ -149,6 +160,13 @@ def table_from_initialiser(b):
         ia = const_add(idx)
         src = s['r'].get('o', {}).get('c') or s['r'].get('o', {}).get('m')
         va = None
+        if s['r']['k'] == 'bin' and s['r']['op'] in ('Add', 'AddUnchecked'):
+            x = s['r']['a'].get('c') or s['r']['a'].get('m')
+            k = s['r']['b'].get('k', {}).get('v')
+            if x is not None and 'pj' not in x and isinstance(k, int):
+                c = zip_component(b, x['l'], zip_next)
+                if c is not None:
+                    va = (c, k)
         if src is not None:
             if 'pj' in src and len(src['pj']) == 1 and src['pj'][0].get('f') == 0:
                 sd2 = b.single_def(src['l'])
